@@ -29,6 +29,9 @@ type tmpl struct {
 	// afterwards, and the default values that leaves must have
 	present  [][]string
 	defaults map[string]string
+	// onlyFor: the template runs under this property only (it carries a recorded finding of
+	// that property)
+	onlyFor string
 }
 
 const h = `namespace "urn:%s"; prefix %s;`
@@ -96,6 +99,11 @@ var templates = []tmpl{
 	{name: "augment-written-in-a-submodule-has-no-target", augment: true, files: []string{
 		`module m { ` + hdr("m") + ` include s; container c { leaf l { type string; } %PAD } }`,
 		`submodule s { belongs-to m { prefix m; } container sc { leaf sl { type string; } } augment "%SUBBAD" { leaf y { type string; } } }`}},
+	// (recorded finding c07-path-that-names-an-implicit-case-reaches-the-member: goyang looks the
+	// path up before the implicit cases exist, so /m:c/m:ch/m:x is the container x, not the case)
+	{name: "augment-path-names-the-implicit-case-of-a-shorthand-member", augment: true, clean: true, onlyFor: "C07", present: [][]string{{"c", "ch", "x", "y"}, {"c", "ch", "x", "x", "l"}}, files: []string{
+		`module m { ` + hdr("m") + ` container c { choice ch { container x { leaf l { type string; } } } %PAD } }`,
+		`module b { ` + hdr("b") + ` import m { prefix m; } augment /m:c/m:ch/m:x { leaf y { type string; } } }`}},
 	{name: "augment-path-leaves-out-an-explicit-case", augment: true, files: []string{
 		`module m { ` + hdr("m") + ` container top { choice ch { case c1 { container cont { leaf in { type string; } } } case c2 { leaf other { type string; } } } %PAD } rpc r { input { choice how { case by-name { container sel { leaf n { type string; } } } } } } }`,
 		`module b { ` + hdr("b") + ` import m { prefix m; } augment %NOCASE { leaf bad { type string; } } }`}},
@@ -104,6 +112,9 @@ var templates = []tmpl{
 		`module b { ` + hdr("b") + ` import m { prefix m; } augment /m:%OPPATH { leaf y { type string; } } }`}},
 	{name: "augment-whose-relative-path-leads-into-the-augment-itself", augment: true, files: []string{
 		`module m { ` + hdr("m") + ` container top { leaf a { type string; } %PAD } augment "%SELFPATH" { container c { leaf x { type string; } } leaf y { type string; } } }`}},
+	{name: "deviate-gives-a-type-to-a-node-that-is-no-leaf", files: []string{
+		`module m { ` + hdr("m") + ` container c { leaf x { type string; } } list l { key k; leaf k { type string; } } choice ch { leaf a { type string; } } %PAD }`,
+		`module d { ` + hdr("d") + ` import m { prefix m; } deviation /m:%NOLEAF { deviate %ADDREP { type int8; } } }`}},
 	{name: "not-supported-twice-in-one-deviation", files: []string{
 		`module m { ` + hdr("m") + ` container c { leaf x { type string; } leaf y { type string; } %PAD } }`,
 		`module d { ` + hdr("d") + ` import m { prefix m; } deviation /m:c/m:x { deviate not-supported; deviate not-supported; } }`}},
@@ -148,16 +159,13 @@ func anyErrors(e *yang.Entry, depth int) string {
 func Run(j *job.Job, s *job.Sink) {
 	for c := j.Start; c < j.Start+j.Count; c++ {
 		r := prng.For(j.Seed, "latefaults", j.Family, c)
-		t := templates[int(c)%len(templates)]
-		if j.Property == "C07" && !t.augment {
-			var aug []tmpl
-			for _, x := range templates {
-				if x.augment {
-					aug = append(aug, x)
-				}
+		var pool []tmpl
+		for _, x := range templates {
+			if (x.onlyFor == "" || x.onlyFor == j.Property) && (j.Property != "C07" || x.augment) {
+				pool = append(pool, x)
 			}
-			t = aug[int(c)%len(aug)]
 		}
+		t := pool[int(c)%len(pool)]
 		pads := []string{"", "leaf pad1 { type string; }", "container pad2 { leaf p { type int8; } }", "choice pad3 { leaf q { type string; } }", "leaf-list pad4 { type string; }"}
 		var files []map[string]string
 		order := r.Perm(len(t.files))
@@ -177,6 +185,8 @@ func Run(j *job.Job, s *job.Sink) {
 			txt = strings.ReplaceAll(txt, "%N2", names3[1])
 			txt = strings.ReplaceAll(txt, "%N3", names3[2])
 			txt = strings.ReplaceAll(txt, "%SUBBAD", []string{"/m:c/m:missing", "/m:c/m:l", "/m:nowhere", "/c/missing", "/sc/sl", "/m:sc/m:nothere"}[r.Intn(6)])
+			txt = strings.ReplaceAll(txt, "%NOLEAF", []string{"c", "l", "ch"}[r.Intn(3)])
+			txt = strings.ReplaceAll(txt, "%ADDREP", []string{"add", "replace"}[r.Intn(2)])
 			txt = strings.ReplaceAll(txt, "%GONE", []string{"/m:top/m:box", "/m:top"}[r.Intn(2)])
 			txt = strings.ReplaceAll(txt, "%LEAFY", []string{"lf", "ll", "ax", "ad"}[r.Intn(4)])
 			txt = strings.ReplaceAll(txt, "%EMPTYBODY", []string{"uses nothing;", "description \"nothing\";", "when \"../m:lf\";", "uses nothing; reference \"r\";", ""}[r.Intn(5)])
